@@ -186,6 +186,9 @@ def shape_corpus():
     a(mk("amb_none_prio", [rx("[a-c]+", prio=3), rx("[b-d]+")]))
     a(mk("nullable", [rx("a*"), tok("b")]))
     a(mk("nullable_tok", [tok(""), tok("b")]))
+    a(mk("nullable_prio", [rx("[0-9]*", prio=3), tok("+")]))
+    a(mk("nullable_prio_bytes", [rx(b"[0-9]*", prio=3), tok(b"+")], utf8=False))
+    a(mk("nullable_skip_prio", [tok("x")], [skip("[ \t]*", prio=5)]))
     a(mk("nullable_sub", [rx("(?&o)"), tok("b")], subs=[("o", "x?")]))
     a(mk("nullable_look", [rx("$"), tok("b")]))
     a(mk("start_look", [rx("^a"), tok("b")]))
